@@ -19,6 +19,10 @@ func (core *JApiCore) processInclude(keyword *scanner.Lexeme) *jerr.JApiError {
 	// This directive shouldn't be among core.directives, because we simply
 	// "paste" included file content inside current file.
 
+	if _, ok := core.bannedDirectives[directive.Include]; ok {
+		return japiErrorForLexeme(keyword, fmt.Sprintf("%s (%s)", jerr.DirectiveNotAllowed, directive.Include.String()))
+	}
+
 	// The directive written before the INCLUDE belongs to the including file: finish it before the scanner is
 	// switched, otherwise an error in it would be reported with the include trace of the file being entered.
 	if je := core.processCurrentDirective(); je != nil {
